@@ -124,6 +124,10 @@ type pverdict struct {
 }
 
 // judgeParse runs Trace_Parse (or another trace module with the same interface) over the events.
+func judgeParseModule(c *Ctx, module string, devs []string, cases []*parseCase, events []map[string]interface{}) ([]pverdict, map[string]int, int, int, error) {
+	return judgeParse(c, module, "", devs, cases, events)
+}
+
 func judgeParse(c *Ctx, module, prop string, devs []string, cases []*parseCase, events []map[string]interface{}) ([]pverdict, map[string]int, int, int, error) {
 	casesPath := filepath.Join(c.Work, "cases.ndjson")
 	if err := writeNDJSON(casesPath, len(cases), func(i int) interface{} { return cases[i] }); err != nil {
@@ -168,7 +172,7 @@ func judgeParse(c *Ctx, module, prop string, devs []string, cases []*parseCase, 
 			w.Flush()
 			f.Close()
 			r := &tlc.Run{SpecDir: filepath.Join(Root, "spec"), Scratch: dir, Module: module, Workers: 1, Timeout: 30 * time.Minute,
-				Cfg:   fmt.Sprintf("CONSTANTS\n  Prop = %q\n  Devs = %s\nSPECIFICATION Spec\nINVARIANT Done\nPOSTCONDITION TraceAccepted\nCHECK_DEADLOCK FALSE\n", prop, tlaSet(devs)),
+				Cfg:   judgeCfg(prop, devs),
 				Files: map[string]string{"cases.ndjson": casesPath},
 				OnLine: func(tag, js string) {
 					switch tag {
@@ -230,7 +234,10 @@ func reportParseVerdicts(c *Ctx, vs []pverdict, cases []*parseCase, events []map
 				continue
 			}
 			seen[v.Why] = true
-			cs := cases[v.Cid-1]
+			cs := cases[0]
+			if v.Cid-1 < len(cases) {
+				cs = cases[v.Cid-1]
+			}
 			ev := events[v.L-1]
 			c.Violation(v.Why, map[string]interface{}{"kind": kind, "tokens": cs.Tokens, "expected_file": cs.File, "event": ev})
 		}
@@ -384,3 +391,10 @@ func runC13(c *Ctx) (int, error) {
 }
 
 func init() { Registry["C13"] = runC13 }
+
+func judgeCfg(prop string, devs []string) string {
+	if prop == "" {
+		return fmt.Sprintf("CONSTANTS\n  Devs = %s\nSPECIFICATION Spec\nINVARIANT Done\nPOSTCONDITION TraceAccepted\nCHECK_DEADLOCK FALSE\n", tlaSet(devs))
+	}
+	return fmt.Sprintf("CONSTANTS\n  Prop = %q\n  Devs = %s\nSPECIFICATION Spec\nINVARIANT Done\nPOSTCONDITION TraceAccepted\nCHECK_DEADLOCK FALSE\n", prop, tlaSet(devs))
+}
